@@ -14,7 +14,7 @@
      Crashed the driver died
 
    The abstract file system fs is carried along; after every command each cross-command
-   invariant W1..W11 is evaluated on all instances in which a file written by that
+   invariant W1..W12 is evaluated on all instances in which a file written by that
    command takes part (the commands an invariant relates have then all been observed). *)
 EXTENDS Workflow, Json, IOUtils
 Trace == ndJsonDeserialize(IOEnv.TRACE_FILE)
